@@ -14,7 +14,7 @@ func init() {
 func stripEvictions(ops []wire.Op) []wire.Op {
 	var out []wire.Op
 	for _, o := range ops {
-		if o.Kind != "evict" {
+		if o.Kind != "evict" && o.Kind != "evict-entry" {
 			out = append(out, o)
 		}
 	}
@@ -29,6 +29,9 @@ func runC02(c *rt.Ctx) {
 		}
 	}
 	cfgs = append(cfgs, Cfg{Orca: "l1l2b", Lock: "multi", Proto: "binary", L1H: "std"}, Cfg{Orca: "l1l2b", Lock: "single", Proto: "binary", L1H: "std"})
+	// the chunked handler and the batching pool as L1
+	cfgs = append(cfgs, Cfg{Orca: "l1l2", Lock: "none", Proto: "binary", L1H: "chunked"}, Cfg{Orca: "l1l2b", Lock: "none", Proto: "text", L1H: "chunked"},
+		Cfg{Orca: "l1l2b", Lock: "none", Proto: "binary", L1H: "batched"})
 	maxLen, depth := 2, 4
 	if c.Thorough() {
 		maxLen, depth = 4, 0
@@ -40,15 +43,23 @@ func runC02(c *rt.Ctx) {
 			continue
 		}
 		alpha := stackAlphabet(cfg, true)
-		bo := BFSOpts{MaxDepth: depth, MaxValLen: maxLen, Bubble: true, Seq: SeqOpts{CheckSubset: true}}
+		if cfg.L1H == "chunked" {
+			// memcached evicts single entries: the metadata or one chunk of a key on its own
+			alpha = append(alpha, wire.Op{Kind: "evict-entry", Key: "a-meta"}, wire.Op{Kind: "evict-entry", Key: "a-0"})
+		}
+		ml := maxLen
+		if cfg.L1H != "std" && ml > 3 {
+			ml = 3 // the chunked / pooled L1 executions are several times slower; still the complete space
+		}
+		bo := BFSOpts{MaxDepth: depth, MaxValLen: ml, Bubble: true, Seq: SeqOpts{CheckSubset: true}}
 		bo.OnExec = func(sc SeqScenario, r *SeqResult) {
 			n := 0
 			for _, o := range sc.Ops {
-				if o.Kind == "evict" {
+				if o.Kind == "evict" || o.Kind == "evict-entry" {
 					n++
 				}
 			}
-			if n == 0 || sc.Ops[len(sc.Ops)-1].Kind == "evict" {
+			if lk := sc.Ops[len(sc.Ops)-1].Kind; n == 0 || lk == "evict" || lk == "evict-entry" {
 				return
 			}
 			// differential: the same history without the evictions must produce the same replies
